@@ -33,10 +33,15 @@ ASSUMPTIONS = [
     'Coq 8.16.1 kernel + vm_compute; Thm 1 is about the real-number instance of the model (exact tier), Thm 2 about the Flocq '
     'instance for every binary format (IEEE special values), witnesses by vm_compute on binary64',
     'model = code: BBox3D::new and BBox3D::intersect checked bit-for-bit on primitive floats on every generated case',
-    'float evaluation vs exact evaluation for finite non-degenerate slabs (Thm 3) is sampled by the exact-rational oracle, not proved',
+    'Thm 3 (float evaluation vs exact evaluation for finite slabs, all direction components non-zero): proved for every binary '
+    'format with the relative margin 1+2u between exact parameters of different axes, under explicit side conditions the model '
+    'evaluates (margin_okb: finite inputs, 1/d and the six products normal numbers or exact zeros, no overflow); outside these '
+    'side conditions (subnormal reciprocals/products) float vs exact evaluation is only sampled by the exact-rational oracle',
 ]
 THEOREMS = ['C14_intersect_characterised', 'C14_complete', 'C14_sound', 'C14_x_slab_nan_loses_the_ray', 'C14_x_slab_nan_refuted',
-            'C14_nan_in_y_or_z_slab_is_ignored']
+            'C14_nan_in_y_or_z_slab_is_ignored', 'C14_float_complete_partial', 'C14_raw_parameter_error',
+            'C14_float_complete_margin', 'C14_float_complete_enter_exit', 'C14_float_complete_point',
+            'C14_float_complete_checked', 'C14_margin_formats_ok', 'C14_float_complete_binary64', 'C14_float_complete_binary32']
 
 def streams(tier):
     if tier == 'quick': return [Stream('C14', 4000)]
